@@ -35,12 +35,18 @@ def run(tier, seed, t0, only=None):
     obs = K.run_harnesses(hs, tier)
     from ..mirsym import binrun
     from . import bingroups
+    from ..mirsym import sercheck
     bs = bingroups.c03_groups(tier)
+    ss = bingroups.ser_groups(tier, 'C03')
     if only:
         bs = [g for g in bs if any(g['id'].startswith(o) for o in only)]
-    if bs:
+        ss = [g for g in ss if any(g['id'].startswith(o) for o in only)]
+    if bs or ss:
         binrun.refresh_mir()
+    if bs:
         obs += binrun.run(bs, ('C03',))
+    if ss:
+        obs += binrun.run(ss, ('C03',), module=sercheck)
     enum = gen.binary_type_enum()
     documented = {i for _, i in info['doc_type_rows']}
     extra = {'undocumented_ids': sorted('%s=0x%02x' % (n, i) for n, i in enum.items() if i not in documented),
